@@ -37,7 +37,7 @@ func checkC03(c *Ctx) {
 // decodeLoopConservation: B3.
 func (c *Ctx) decodeLoopConservation() {
 	n := 0
-	for _, fn := range c.decodeEntries() {
+	for _, fn := range c.decodeLoopHosts() {
 		loops := ir.Loops(fn)
 		if len(loops) == 0 {
 			continue
@@ -278,8 +278,7 @@ func (c *Ctx) dirtyDiscipline() {
 		if fn.Pkg != sp || fn.Signature.Recv() == nil || fn.Parent() != nil {
 			continue
 		}
-		switch fn.Name() {
-		case "Decode", "decode", "decodeMessage", "Encode", "encode", "encodeMessage", "Len", "msglen", "Clone":
+		if c.isCodecInternal(fn, 0) {
 			continue
 		}
 		recv := ssa.Value(fn.Params[0])
@@ -590,9 +589,19 @@ func (c *Ctx) typeTables() {
 	}
 	// Valid: RESERVED < t < RESERVED2
 	if fn := c.P.Func("message", "Type", "Valid"); fn != nil {
-		gt := constsOf(fn, token.GTR)
-		lt := constsOf(fn, token.LSS)
-		c.R.Check(len(gt) == 1 && gt[0] == 0 && len(lt) == 1 && lt[0] == 15, ruleT1, "Type.Valid:range", c.P.Pos(fn.Pos()), "0 < t < 15", fmt.Sprintf("Type.Valid accepts another range (lower bounds %v, upper bounds %v)", gt, lt))
+		// set-based evaluation: the set of type values for which Valid() is true must be exactly 1..14
+		set, understood := boolResultSet(fn, fn.Params[0])
+		okSet := true
+		for t := 0; t < 256; t++ {
+			if set[t] != (t >= 1 && t <= 14) {
+				okSet = false
+			}
+		}
+		if !understood {
+			c.R.Unknown(ruleT1, "Type.Valid:range", c.P.Pos(fn.Pos()), "the shape of Type.Valid is outside the set-based evaluation (comparisons of the type with constants, negation, and/or)")
+		} else {
+			c.R.Check(okSet, ruleT1, "Type.Valid:range", c.P.Pos(fn.Pos()), "valid exactly for 1..14", fmt.Sprintf("Type.Valid is true for %v, MQTT 3.1.1 defines the packet types 1..14", set.list()))
+		}
 	}
 	// thresholds of header.msglen
 	if fn := c.P.Func("message", "header", "msglen"); fn != nil {
@@ -849,4 +858,55 @@ func (c *Ctx) presenceFacts(b *ssa.BasicBlock) []fact {
 		}
 	}
 	return out
+}
+
+// decodeLoopHosts: the Decode bodies and the helpers they (transitively, statically) call that contain a
+// loop: the decode loop of a packet may live in a helper of its Decode method.
+func (c *Ctx) decodeLoopHosts() []*ssa.Function {
+	seen := map[*ssa.Function]bool{}
+	var out []*ssa.Function
+	var walk func(fn *ssa.Function, d int)
+	walk = func(fn *ssa.Function, d int) {
+		if fn == nil || seen[fn] || d > 2 || fn.Blocks == nil || !c.P.InLib(fn) {
+			return
+		}
+		seen[fn] = true
+		if len(ir.Loops(fn)) > 0 {
+			out = append(out, fn)
+		}
+		for _, call := range ir.Calls(fn) {
+			if f := call.Common().StaticCallee(); f != nil && f.Pkg != nil && f.Pkg.Pkg.Path() == pkgMessage {
+				walk(f, d+1)
+			}
+		}
+	}
+	for _, fn := range c.decodeEntries() {
+		walk(fn, 0)
+	}
+	sort.Slice(out, func(i, j int) bool { return fname(out[i]) < fname(out[j]) })
+	return out
+}
+
+// isCodecInternal: fn is a decoder (Decode / decode / decodeMessage) or a helper that only decoders call:
+// such code stores the decoded fields and ends with dirty = false; the dirty discipline is about mutators.
+func (c *Ctx) isCodecInternal(fn *ssa.Function, d int) bool {
+	switch fn.Name() {
+	case "Decode", "decode", "decodeMessage", "Encode", "encode", "encodeMessage", "Len", "msglen", "Clone":
+		return true
+	}
+	if d > 2 || (fn.Object() != nil && fn.Object().Exported()) {
+		return false
+	}
+	sites := c.P.Callers(fn)
+	n := 0
+	for _, s := range sites {
+		if s.Parent().Synthetic != "" {
+			continue // promoted-method wrappers of the embedding message types
+		}
+		n++
+		if !c.isCodecInternal(s.Parent(), d+1) {
+			return false
+		}
+	}
+	return n > 0
 }
